@@ -1657,6 +1657,14 @@ class PyExec:
                 return v.sort() == z3.RealSort()
             if tn == "int" and is_sym(v):
                 return v.sort() == z3.IntSort()
+            if isinstance(t, tuple):
+                names = [x.name if isinstance(x, (ModuleRef, Builtin)) else None for x in t]
+                if is_sym(v) and z3.is_bool(v) and any(nm in ("bool", "numpy.bool_", "np.bool_") for nm in names):
+                    return True          # a scalar comparison result
+                if isinstance(v, (bool,)) and "bool" in names:
+                    return True
+            if tn == "bool" and ((is_sym(v) and z3.is_bool(v)) or isinstance(v, bool)):
+                return True
             if isinstance(v, Opaque):
                 # unknown dynamic type of an abstracted object: one symbolic answer per (object, type), used consistently
                 cache = self.__dict__.setdefault("_isinstance_cache", {})
@@ -1790,6 +1798,43 @@ class PyExec:
                     raise CheckerError("np.unique(axis=0) of a non-2D array")
                 rows = sorted({tuple(concrete_int(a.flat[i * a.shape[1] + j]) for j in range(a.shape[1])) for i in range(a.shape[0])})
                 return st.new(NDArr((len(rows), a.shape[1]), [z3.IntVal(x) for r_ in rows for x in r_], "int64"))
+            if short == "norm":
+                a = self.to_nd(st, args[0])
+                ax = kwargs.get("axis")
+                sq_ = MATH["sqrt"] if "MATH" in globals() else z3.Function("c_sqrt", z3.RealSort(), z3.RealSort())
+
+                def nrm(items):
+                    tot = z3.RealVal(0)
+                    for x in items:
+                        x = to_real(num(x))
+                        tot = tot + x * x
+                    return sq_(tot)
+                if ax is None:
+                    if len(a.shape) != 1:
+                        raise CheckerError("np.linalg.norm of a matrix without axis (Frobenius norm) is outside the modelled subset")
+                    return nrm(a.flat)
+                ax = self.cidx(ax)
+                if len(a.shape) != 2:
+                    raise CheckerError("np.linalg.norm(axis=...) of a non-2D array")
+                r_, c_ = a.shape
+                if ax == 0:
+                    return st.new(NDArr((c_,), [nrm([a.flat[i * c_ + j] for i in range(r_)]) for j in range(c_)]))
+                return st.new(NDArr((r_,), [nrm([a.flat[i * c_ + j] for j in range(c_)]) for i in range(r_)]))
+            if short == "where" and len(args) == 3:
+                c = self.to_nd(st, args[0])
+
+                def el(x, k):
+                    if isinstance(x, Ref):
+                        a_ = self.to_nd(st, x)
+                        if a_.shape != c.shape:
+                            raise CheckerError("np.where with operands of different shapes")
+                        return num(a_.flat[k])
+                    return num(x)
+                out_ = []
+                for k in range(len(c.flat)):
+                    a_, b_ = both_real(el(args[1], k), el(args[2], k))
+                    out_.append(z3.If(truth(c.flat[k]), a_, b_))
+                return st.new(NDArr(c.shape, out_))
             if short in ("logical_xor", "logical_and", "logical_or"):
                 a, b = self.to_nd(st, args[0]), self.to_nd(st, args[1])
                 if a.shape != b.shape:
